@@ -243,10 +243,19 @@ impl<Effect, Event> Command<Effect, Event> {
         //
         // Note that there is an exception: the task may have used the waker and dropped it,
         // making it ready, rather than abandoned.
-        let task_is_ready = arc_waker.woken.load(Ordering::Acquire);
+        //
+        // The number of wakers has to be read *before* the woken flag: another thread may
+        // wake the task and then release its copy of the waker at any moment. Reading the
+        // flag first could see "not woken", then see the count drop to one, and evict a task
+        // which has just been woken (losing the response and tearing down its streams).
+        // In this order, a count of one means every other copy has already been released,
+        // and the fence makes the wake that preceded that release visible in the flag.
+        let waker_count = Arc::strong_count(&arc_waker);
+        std::sync::atomic::fence(Ordering::Acquire);
         #[cfg(crux_verif)]
         crate::verif::point("cmd.run_task.between_reads");
-        if result == TaskState::Suspended && !task_is_ready && Arc::strong_count(&arc_waker) < 2 {
+        let task_is_ready = arc_waker.woken.load(Ordering::Acquire);
+        if result == TaskState::Suspended && !task_is_ready && waker_count < 2 {
             return TaskState::Cancelled;
         }
 
